@@ -231,6 +231,10 @@ Lemma drops_fold_archs l w : w_archs (fold_left (fun (w' : world) '(c, v) => dro
 Proof.
   revert w. induction l as [|[c v] l IH]; intros w; cbn [fold_left]; [reflexivity|]. rewrite IH. unfold drop_cval. now destruct (ctag_has_drop _).
 Qed.
+Lemma fold_left_pres_aby l w : w_aby (fold_left (fun (w' : world) '(c, v) => drop_cval w' (comp_tag w' c) v) l w) = w_aby w.
+Proof.
+  revert w. induction l as [|[c v] l IH]; intros w; cbn [fold_left]; [reflexivity|]. rewrite IH. unfold drop_cval. now destruct (ctag_has_drop _).
+Qed.
 Lemma notify_remove_ents w ai : w_ents (notify_remove w ai) = w_ents w.
 Proof. unfold notify_remove. destruct (slab_get (w_archs w) ai); reflexivity. Qed.
 Lemma notify_remove_archs w ai : w_archs (notify_remove w ai) = w_archs w.
@@ -524,7 +528,10 @@ Theorem move_entity_ok w sai srow dst sa da e vals nw dvals killed :
   merge_row (S (length (a_comps sa) + length (a_comps da))) (a_comps sa) vals (a_comps da) nw = Some (dvals, killed) ->
   exists w', move_entity w (sai, srow) dst nw = ROk tt w' /\ StoreInv w' /\
              (forall k c, k <> e -> abs w' k c = abs w k c) /\
-             (forall c, abs w' e c = row_col da dvals c).
+             (forall c, abs w' e c = row_col da dvals c) /\
+             (exists cap' ep', w_archs w' = slab_set (slab_set (w_archs w) sai (set_rows sa (swap_remove (a_rows sa) srow))) dst
+                                               (set_rows (set_cap da cap' ep') (a_rows da ++ [(e, dvals)]))) /\
+             w_aby w' = w_aby w.
 Proof.
   intros Hinv Hsa Hda Hne Hrow Hmerge. pose proof Hinv as (Hsm & Hl & Hr).
   assert (Hvlen : length vals = length (a_comps sa)) by exact (proj2 (Hr _ _ _ _ _ Hsa Hrow)).
@@ -554,8 +561,10 @@ Proof.
                              | Some (se, _) => match sm_get se (w_ents w3) with
                                                | Some l => set_loc w3 se (fst l, srow)
                                                | None => RFail (FUB 488) w3 end
-                             | None => ROk tt w3 end) = ROk tt w4 /\ w_ents w4 = w_ents R /\ w_archs w4 = w_archs R).
-  { unfold R, move_row_result. fold sa1 da2 ents1. change (a_rows sa1) with (swap_remove (a_rows sa) srow).
+                             | None => ROk tt w3 end) = ROk tt w4 /\ w_ents w4 = w_ents R /\ w_archs w4 = w_archs R /\ w_aby w4 = w_aby w).
+  { assert (B1 : w_aby w1 = w_aby w).
+    { unfold w1. apply (fold_left_pres_aby killed w). }
+    unfold R, move_row_result. fold sa1 da2 ents1. change (a_rows sa1) with (swap_remove (a_rows sa) srow).
     destruct (nget (swap_remove (a_rows sa) srow) srow) as [[se sv]|] eqn:Ed.
     - assert (Hlt : srow < nlen (a_rows sa)) by (eapply nget_some_lt; eauto).
       destruct (swap_remove_displaced _ _ _ Hlt Ed) as [Hlast Hnl].
@@ -564,11 +573,11 @@ Proof.
       assert (Hidx : fst se <> fst e). { intros Ef. apply Hsee. eapply live_same_index; eauto. }
       assert (Hgse1 : sm_get se ents1 = Some (sai, nlen (a_rows sa) - 1)) by (unfold ents1; now rewrite upd_get_neq).
       cbn [w_ents set_ents]. change (w_ents w3) with ents1. rewrite Hgse1. unfold set_loc. change (w_ents w3) with ents1. rewrite Hgse1.
-      eexists. split; [reflexivity|]. cbn [w_ents w_archs set_ents set_archs fst]. split; [|reflexivity].
+      eexists. split; [reflexivity|]. cbn [w_ents w_archs w_aby set_ents set_archs fst]. split; [|split; [reflexivity|exact B1]].
       apply upd_by_index_ext. intros s v Hs Hv. destruct (sm_get_some_inv _ _ _ Hgse1) as (s' & Hs' & _ & Hv'). rewrite Hs in Hs'. inversion Hs'; subst.
       rewrite Hv in Hv'. inversion Hv'; subst. reflexivity.
-    - exists w3. split; [reflexivity|]. split; reflexivity. }
-  destruct Hfin as (w4 & -> & E4 & A4). cbn [rbind].
+    - exists w3. split; [reflexivity|]. split; [reflexivity|]. split; [reflexivity|exact B1]. }
+  destruct Hfin as (w4 & -> & E4 & A4 & HfinB). cbn [rbind].
   eexists. split; [reflexivity|].
   match goal with |- StoreInv ?x /\ _ => set (wf := x) end.
   assert (Ef : w_ents wf = w_ents R).
@@ -591,7 +600,27 @@ Proof.
       unfold upd_by_index. destruct (sget (slots ents1) (fst se)) as [s|] eqn:Es; [|exact Hg1].
       destruct (val s) eqn:Ev; [|exact Hg1]. unfold sm_get. cbn [slots]. rewrite Ei. erewrite sget_supd_eq by eauto. cbn [gen val].
       unfold sm_get in Hg1. rewrite Ei, Es in Hg1. destruct (gen s =? snd k); [congruence|reflexivity].
-  - intros c. destruct (move_row_moved w sai srow dst sa da e dvals cap' ep' Hsa Hda Hne) as [Hb' Hn']. fold R in Hb'.
-    unfold arch_at in Hb'. rewrite <- Af in Hb'.
-    rewrite (abs_of_row wf dst _ _ e dvals c Hinvf Hb' Hn'). apply row_col_comps. reflexivity.
+  - split; [|split].
+    + intros c. destruct (move_row_moved w sai srow dst sa da e dvals cap' ep' Hsa Hda Hne) as [Hb' Hn']. fold R in Hb'.
+      unfold arch_at in Hb'. rewrite <- Af in Hb'.
+      rewrite (abs_of_row wf dst _ _ e dvals c Hinvf Hb' Hn'). apply row_col_comps. reflexivity.
+    + exists cap', ep'. rewrite Af. unfold R, move_row_result.
+      match goal with |- context [match ?x with Some _ => _ | None => _ end] => destruct x as [[? ?]|] end; reflexivity.
+    + (* by_components is not touched *)
+      assert (B4 : w_aby w4 = w_aby w).
+      { clear -HfinB. exact HfinB. }
+      unfold wf. repeat match goal with |- context [if ?b then _ else _] => destruct b end;
+        unfold notify_refresh, notify_remove; repeat match goal with |- context [slab_get ?x ?y] => destruct (slab_get x y) end; exact B4.
+Qed.
+
+Corollary move_entity_ok_core w sai srow dst sa da e vals nw dvals killed :
+  StoreInv w -> arch_at w sai = Some sa -> arch_at w dst = Some da -> sai <> dst ->
+  nget (a_rows sa) srow = Some (e, vals) ->
+  merge_row (S (length (a_comps sa) + length (a_comps da))) (a_comps sa) vals (a_comps da) nw = Some (dvals, killed) ->
+  exists w', move_entity w (sai, srow) dst nw = ROk tt w' /\ StoreInv w' /\
+             (forall k c, k <> e -> abs w' k c = abs w k c) /\
+             (forall c, abs w' e c = row_col da dvals c).
+Proof.
+  intros H1 H2 H3 H4 H5 H6. destruct (move_entity_ok w sai srow dst sa da e vals nw dvals killed H1 H2 H3 H4 H5 H6) as (w' & A & B & C & D & _).
+  exists w'. auto.
 Qed.
